@@ -265,4 +265,257 @@ Proof.
     split; [apply third_chord_on; auto | intros; apply third_reduced].
 Qed.
 
+(* ------------------------------------------------------------------------------------------------
+   agreement with the specification *)
+Lemma red_some x y : red c (Some (x, y)) = Some (x mod p, y mod p).
+Proof. reflexivity. Qed.
+
+Lemma third_red x0 y0 x1 l : red c (Some (third x0 y0 x1 l)) = Some (third x0 y0 x1 l).
+Proof. unfold third. cbn [red cp c]. now rewrite !Zmod_mod. Qed.
+
+Lemma third_eqm x0 y0 x1 l x0' y0' x1' l' :
+  x0 == x0' -> y0 == y0' -> x1 == x1' -> l == l' -> third x0 y0 x1 l = third x0' y0' x1' l'.
+Proof.
+  intros E0 E1 E2 E3. unfold third.
+  assert (Ex : (l * l - x0 - x1) mod p = (l' * l' - x0' - x1') mod p).
+  { apply eqm_mod_eq. now rewrite E0, E2, E3. }
+  rewrite Ex. f_equal. apply eqm_mod_eq. now rewrite E0, E1, E3.
+Qed.
+
+Lemma slope_chord_eqm x0 y0 x1 y1 x0' y0' x1' y1' :
+  x0 == x0' -> y0 == y0' -> x1 == x1' -> y1 == y1' -> slope_chord x0 y0 x1 y1 = slope_chord x0' y0' x1' y1'.
+Proof.
+  intros E0 E1 E2 E3. unfold slope_chord. apply eqm_mod_eq.
+  assert (E : finv (x1 - x0) = finv (x1' - x0')) by (apply finv_eq; now rewrite E0, E2).
+  rewrite E. now rewrite E1, E3.
+Qed.
+
+Lemma slope_tan_eqm x0 y0 x0' y0' : x0 == x0' -> y0 == y0' -> slope_tan x0 y0 = slope_tan x0' y0'.
+Proof.
+  intros E0 E1. unfold slope_tan. apply eqm_mod_eq.
+  assert (E : finv (2 * y0) = finv (2 * y0')) by (apply finv_eq; now rewrite E1).
+  rewrite E. now rewrite E0.
+Qed.
+
+Lemma slope_chord_eq x0 y0 x1 y1 : ~ x1 - x0 == 0 ->
+  slope_chord x0 y0 x1 y1 * (x1 - x0) == y1 - y0.
+Proof. intros Hd. unfold slope_chord. rewrite mod_eqm_p. field. auto. Qed.
+
+Lemma slope_tan_eq x0 y0 : ~ 2 * y0 == 0 -> slope_tan x0 y0 * (2 * y0) == 3 * x0 * x0 + a.
+Proof.
+  intros Hd. unfold slope_tan. rewrite mod_eqm_p.
+  assert (E : (3 * x0 * x0 + a) * finv (2 * y0) * (2 * y0) == (3 * x0 * x0 + a) * (finv (2 * y0) * (2 * y0))) by ring.
+  rewrite E, (finv_l _ Hd). ring.
+Qed.
+
+Lemma on_curve_red P : on_curve c P <-> on_curve c (red c P).
+Proof.
+  destruct P as [[x y]|]; [|tauto]. rewrite red_some, !oc_iff. unfold cubic.
+  now rewrite !mod_eqm_p.
+Qed.
+
+Lemma nz_sym x y : ~ x - y == 0 -> ~ y - x == 0.
+Proof. intros H E. apply H. apply eqm_sub_zero. symmetry. now apply eqm_sub_zero. Qed.
+
+Theorem add_is_spec P Q : on_curve c P -> on_curve c Q ->
+  exists R, add c P Q = Ret R /\ on_curve c R /\ (P <> None -> Q <> None -> reduced c R) /\
+            spec_add c (red c P) (red c Q) (red c R).
+Proof.
+  intros HP HQ.
+  destruct P as [[x0 y0]|];
+    [|exists Q; split; [reflexivity|]; split; [exact HQ|]; split; [intros H; congruence|]; apply SA_inf_l].
+  destruct Q as [[x1 y1]|];
+    [|exists (Some (x0, y0)); split; [reflexivity|]; split; [exact HP|]; split; [intros _ H; congruence|]; apply SA_inf_r].
+  pose proof p_gt_1 as Hp1.
+  destruct (Z.eq_dec ((x0 - x1) mod p) 0) as [Ex|Ex].
+  - apply eqm0_iff in Ex. pose proof (proj1 (eqm_sub_zero _ _) Ex) as Exx.
+    destruct (Z.eq_dec ((y0 + y1) mod p) 0) as [Ey|Ey].
+    + apply eqm0_iff in Ey. exists None. rewrite add_opp by auto. cbn [on_curve reduced]. repeat split; auto.
+      rewrite !red_some. rewrite (eqm_mod_eq _ _ Exx). apply SA_opp. cbn [cp c].
+      rewrite <- Zplus_mod. now apply eqm0_iff.
+    + rewrite <- eqm0_iff in Ey. destruct (same_x_cases _ _ _ _ HP HQ Ex Ey) as [Eyy Hd].
+      eexists. rewrite add_tan by auto. split; [reflexivity|].
+      split; [apply third_tan_on; auto|]. split; [intros; apply third_reduced|].
+      rewrite third_red, !red_some. rewrite <- (eqm_mod_eq _ _ Exx), <- (eqm_mod_eq _ _ Eyy).
+      rewrite (third_eqm x0 y0 x1 (slope_tan x0 y0) (x0 mod p) (y0 mod p) (x0 mod p) (slope_tan x0 y0))
+        by (try reflexivity; try (symmetry; apply mod_eqm_p); rewrite mod_eqm_p; now symmetry).
+      unfold third. apply SA_tangent; cbn [cp ca c].
+      * intros E. apply Hd. apply eqm0_iff. rewrite <- Zplus_mod in E.
+        assert (E2 : 2 * y0 == y0 + y0) by (change 2 with (1 + 1); ring). rewrite E2. now apply eqm0_iff.
+      * apply eqm_mod_eq. rewrite !mod_eqm_p. apply slope_tan_eq; auto.
+  - rewrite <- eqm0_iff in Ex.
+    eexists. rewrite add_chord by auto. split; [reflexivity|].
+    split; [apply third_chord_on; auto|]. split; [intros; apply third_reduced|].
+    rewrite third_red, !red_some.
+    rewrite (third_eqm x0 y0 x1 (slope_chord x0 y0 x1 y1) (x0 mod p) (y0 mod p) (x1 mod p) (slope_chord x0 y0 x1 y1))
+      by (try reflexivity; symmetry; apply mod_eqm_p).
+    unfold third. apply SA_chord; cbn [cp c].
+    + intros E. apply Ex. apply eqm_sub_zero. exact E.
+    + apply eqm_mod_eq. rewrite !mod_eqm_p. apply slope_chord_eq. now apply nz_sym.
+Qed.
+
+(* ------------------------------------------------------------------------------------------------
+   the group operation on elements: padd, pneg *)
+Definition padd (P Q : pt) : pt := match add c P Q with Ret R => red c R | _ => None end.
+Definition pneg (P : pt) : pt :=
+  match P with None => None | Some (x, y) => Some (x mod p, (p - y) mod p) end.
+
+Definition pt_eqm (P Q : pt) : Prop :=
+  match P, Q with
+  | None, None => True
+  | Some (x, y), Some (x', y') => x == x' /\ y == y'
+  | _, _ => False
+  end.
+
+Lemma pt_eqm_red P : pt_eqm P (red c P).
+Proof. destruct P as [[x y]|]; cbn; [|auto]. split; symmetry; apply mod_eqm_p. Qed.
+
+Lemma pt_eqm_on P Q : pt_eqm P Q -> on_curve c P -> on_curve c Q.
+Proof.
+  destruct P as [[x y]|], Q as [[x' y']|]; cbn [pt_eqm]; try tauto.
+  intros [E1 E2]. rewrite !oc_iff. unfold cubic. now rewrite E1, E2.
+Qed.
+
+Lemma red_eqm P Q : pt_eqm P Q -> red c P = red c Q.
+Proof.
+  destruct P as [[x y]|], Q as [[x' y']|]; cbn [pt_eqm]; try tauto.
+  intros [E1 E2]. rewrite !red_some. now rewrite (eqm_mod_eq _ _ E1), (eqm_mod_eq _ _ E2).
+Qed.
+
+Lemma red_valid P : on_curve c P -> valid c (red c P).
+Proof.
+  intros H. split; [apply (proj1 (on_curve_red P)); exact H|].
+  destruct P as [[x y]|]; cbn; auto. pose proof p_gt_1. split; apply Z.mod_pos_bound; lia.
+Qed.
+
+Lemma red_id P : reduced c P -> red c P = P.
+Proof.
+  destruct P as [[x y]|]; cbn; auto. intros [H1 H2]. now rewrite !Z.mod_small.
+Qed.
+
+Lemma padd_valid P Q : on_curve c P -> on_curve c Q -> valid c (padd P Q).
+Proof.
+  intros HP HQ. unfold padd. destruct (add_closed P Q HP HQ) as (R & -> & HR & _). now apply red_valid.
+Qed.
+
+Lemma add_padd P Q : on_curve c P -> on_curve c Q ->
+  exists R, add c P Q = Ret R /\ on_curve c R /\ red c R = padd P Q.
+Proof.
+  intros HP HQ. unfold padd. destruct (add_closed P Q HP HQ) as (R & -> & HR & _). eauto.
+Qed.
+
+Lemma padd_eqm P Q P' Q' : on_curve c P -> on_curve c Q -> pt_eqm P P' -> pt_eqm Q Q' ->
+  padd P Q = padd P' Q'.
+Proof.
+  intros HP HQ EP EQ.
+  pose proof (pt_eqm_on _ _ EP HP) as HP'. pose proof (pt_eqm_on _ _ EQ HQ) as HQ'.
+  unfold padd.
+  destruct P as [[x0 y0]|], P' as [[x0' y0']|]; cbn [pt_eqm] in EP; try tauto;
+    destruct Q as [[x1 y1]|], Q' as [[x1' y1']|]; cbn [pt_eqm] in EQ; try tauto.
+  - destruct EP as [E0 E1], EQ as [E2 E3].
+    destruct (Z.eq_dec ((x0 - x1) mod p) 0) as [Ex|Ex].
+    + apply eqm0_iff in Ex. assert (Ex' : x0' - x1' == 0) by (now rewrite <- E0, <- E2).
+      destruct (Z.eq_dec ((y0 + y1) mod p) 0) as [Ey|Ey].
+      * apply eqm0_iff in Ey. assert (Ey' : y0' + y1' == 0) by (now rewrite <- E1, <- E3).
+        now rewrite !add_opp.
+      * rewrite <- eqm0_iff in Ey. assert (Ey' : ~ y0' + y1' == 0) by (now rewrite <- E1, <- E3).
+        destruct (same_x_cases _ _ _ _ HP HQ Ex Ey) as [_ Hd].
+        destruct (same_x_cases _ _ _ _ HP' HQ' Ex' Ey') as [_ Hd'].
+        rewrite !add_tan by auto. f_equal. f_equal.
+        apply third_eqm; auto. rewrite (slope_tan_eqm _ _ _ _ E0 E1). reflexivity.
+    + rewrite <- eqm0_iff in Ex. assert (Ex' : ~ x0' - x1' == 0) by (now rewrite <- E0, <- E2).
+      rewrite !add_chord by auto. f_equal. f_equal.
+      apply third_eqm; auto. rewrite (slope_chord_eqm _ _ _ _ _ _ _ _ E0 E1 E2 E3). reflexivity.
+  - cbn [add]. apply red_eqm. cbn. auto.
+  - cbn [add]. apply red_eqm. cbn. auto.
+Qed.
+
+Lemma padd_red_l P Q : on_curve c P -> on_curve c Q -> padd (red c P) Q = padd P Q.
+Proof.
+  intros HP HQ. symmetry. apply padd_eqm; auto; [apply pt_eqm_red | destruct Q as [[? ?]|]; cbn; auto; split; reflexivity].
+Qed.
+
+Lemma padd_red_r P Q : on_curve c P -> on_curve c Q -> padd P (red c Q) = padd P Q.
+Proof.
+  intros HP HQ. symmetry. apply padd_eqm; auto; [destruct P as [[? ?]|]; cbn; auto; split; reflexivity | apply pt_eqm_red].
+Qed.
+
+Lemma padd_None_l Q : padd None Q = red c Q.
+Proof. reflexivity. Qed.
+
+Lemma padd_None_r P : padd P None = red c P.
+Proof. destruct P as [[? ?]|]; reflexivity. Qed.
+
+Lemma padd_comm P Q : on_curve c P -> on_curve c Q -> padd P Q = padd Q P.
+Proof.
+  intros HP HQ. unfold padd.
+  destruct P as [[x0 y0]|], Q as [[x1 y1]|]; try reflexivity.
+  destruct (Z.eq_dec ((x0 - x1) mod p) 0) as [Ex|Ex].
+  - apply eqm0_iff in Ex. pose proof (proj1 (eqm_sub_zero _ _) Ex) as Exx.
+    assert (Ex' : x1 - x0 == 0) by (apply eqm_sub_zero; now symmetry).
+    destruct (Z.eq_dec ((y0 + y1) mod p) 0) as [Ey|Ey].
+    + apply eqm0_iff in Ey. assert (Ey' : y1 + y0 == 0) by (now rewrite Z.add_comm).
+      now rewrite !add_opp.
+    + rewrite <- eqm0_iff in Ey. assert (Ey' : ~ y1 + y0 == 0) by (now rewrite Z.add_comm).
+      destruct (same_x_cases _ _ _ _ HP HQ Ex Ey) as [Eyy Hd].
+      destruct (same_x_cases _ _ _ _ HQ HP Ex' Ey') as [_ Hd'].
+      rewrite !add_tan by auto. f_equal. f_equal.
+      apply third_eqm; auto; [now symmetry|]. rewrite (slope_tan_eqm _ _ _ _ Exx Eyy). reflexivity.
+  - rewrite <- eqm0_iff in Ex. pose proof (nz_sym _ _ Ex) as Ex'.
+    rewrite !add_chord by auto. f_equal. f_equal.
+    assert (El : slope_chord x0 y0 x1 y1 = slope_chord x1 y1 x0 y0).
+    { unfold slope_chord. apply eqm_mod_eq. field. auto. }
+    rewrite <- El. set (l := slope_chord x0 y0 x1 y1).
+    unfold third.
+    assert (E3 : (l * l - x0 - x1) mod p = (l * l - x1 - x0) mod p) by (apply eqm_mod_eq; ring).
+    rewrite <- E3. f_equal. apply eqm_mod_eq.
+    pose proof (slope_chord_eq x0 y0 x1 y1 Ex') as K. fold l in K.
+    apply eqm_sub_zero.
+    assert (E4 : l * (x0 - (l * l - x0 - x1) mod p) - y0 - (l * (x1 - (l * l - x0 - x1) mod p) - y1)
+                 == (y1 - y0) - l * (x1 - x0)) by ring.
+    rewrite E4, K. ring.
+Qed.
+
+Lemma pneg_valid P : on_curve c P -> valid c (pneg P).
+Proof.
+  intros H. destruct P as [[x y]|]; cbn [pneg]; [|split; cbn; auto].
+  pose proof p_gt_1. split.
+  - apply oc_iff in H. apply oc_iff. unfold cubic in *. rewrite !mod_eqm_p.
+    assert (E : (p - y) * (p - y) == y * y).
+    { assert (E1 : (p - y) * (p - y) == y * y + p * (p - 2 * y)) by (change 2 with (1 + 1); ring).
+      rewrite E1. unfold eqm. rewrite (Z.mul_comm p), Z_mod_plus_full. reflexivity. }
+    now rewrite E.
+  - cbn. split; apply Z.mod_pos_bound; lia.
+Qed.
+
+Lemma neg_model P : on_curve c P -> exists R, neg c P = Ret R /\ on_curve c R /\ red c R = pneg P.
+Proof.
+  intros H. destruct P as [[x y]|]; cbn [neg]; [|exists None; auto].
+  cbn [cp c].
+  assert (Hon : on_curve c (Some (x, p - y))).
+  { apply (proj2 (on_curve_red _)). rewrite red_some. apply (pneg_valid (Some (x, y)) H). }
+  rewrite (mk_point_on _ _ Hon). eexists. split; [reflexivity|]. split; [exact Hon|reflexivity].
+Qed.
+
+Lemma pneg_is_spec_neg P : pneg P = spec_neg c (red c P).
+Proof.
+  destruct P as [[x y]|]; [|reflexivity]. cbn [pneg red spec_neg cp c]. f_equal. f_equal.
+  apply eqm_mod_eq. rewrite mod_eqm_p.
+  unfold eqm. replace (p - y) with (- y + 1 * p) by lia. apply Z_mod_plus_full.
+Qed.
+
+Lemma padd_pneg P : on_curve c P -> padd P (pneg P) = None.
+Proof.
+  intros H. destruct P as [[x y]|]; [|reflexivity].
+  unfold padd. cbn [pneg]. rewrite add_opp; [reflexivity| |].
+  - apply eqm_sub_zero. symmetry. apply mod_eqm_p.
+  - rewrite mod_eqm_p. unfold eqm. replace (y + (p - y)) with (0 + 1 * p) by lia. apply Z_mod_plus_full.
+Qed.
+
+Lemma pneg_red P : pneg (red c P) = pneg P.
+Proof.
+  destruct P as [[x y]|]; [|reflexivity]. cbn [red pneg cp c]. rewrite Zmod_mod. f_equal. f_equal.
+  apply eqm_mod_eq. now rewrite mod_eqm_p.
+Qed.
+
 End Fp.
